@@ -85,7 +85,8 @@ void do_call(const JV& c) {
     Paths64 sol, op; cl.Execute((ClipType)a[0].i(), (FillRule)a[1].i(), sol, op); sink = total(sol) + total(op);
     PolyTree64 tr; other.Execute((ClipType)a[0].i(), (FillRule)a[1].i(), tr, op); sink = tr.Count();
   } else if (ep == "rectclip" || ep == "rectcliplines" || ep == "rectclipD" || ep == "exp_rectclip64" || ep == "exp_rectcliplines64") {
-    int rk = (int)a[0].i(); Rect64 r = rk == 1 ? Rect64(t + 2, t + 2, t + 7, t + 7) : rk == 2 ? Rect64(t - 100, t - 100, t + 100, t + 100) : Rect64(t + 5, t + 5, t + 5, t + 5);
+    int rk = (int)a[0].i();   // 4: outer rings and holes of the shapes cross the rectangle's RIGHT side in opposite directions
+    Rect64 r = rk == 1 ? Rect64(t + 2, t + 2, t + 7, t + 7) : rk == 2 ? Rect64(t - 100, t - 100, t + 100, t + 100) : rk == 4 ? Rect64(t - 2, t + 0, t + 6, t + 10) : Rect64(t + 5, t + 5, t + 5, t + 5);
     if (ep == "rectclip") sink = total(RectClip(r, S));
     else if (ep == "rectcliplines") sink = total(RectClipLines(r, S));
     else if (ep == "rectclipD") sink = total(RectClip(RectD(r.left / 128.0, r.top / 128.0, r.right / 128.0, r.bottom / 128.0), toD(S), 2));
